@@ -68,7 +68,7 @@ static void sym_code(VM &vm, int &n) {
 static void sym_ghost(Ghost &g) {
   for (int i = 0; i < VM_L; i++) {
     g.reg[i] = nondet_int(); ASSUME(g.reg[i] >= 0 && g.reg[i] < VM_R);
-    g.callee[i] = nondet_int(); ASSUME(g.callee[i] >= 1 && g.callee[i] < VM_R);
+    g.callee[i] = nondet_int(); ASSUME(g.callee[i] >= 0 && g.callee[i] < VM_R);
     g.argk[i] = nondet_int(); ASSUME(g.argk[i] >= 0 && g.argk[i] < VM_MAXARG);
     CEX_reg[i] = g.reg[i]; CEX_callee[i] = g.callee[i]; CEX_argk[i] = g.argk[i];
   }
@@ -112,7 +112,7 @@ static bool wf_instr(VM &vm, const Ghost &g, int n, int i) {
       if (i == 0) { ok = r == 0 && I.parameters.prepare.count == g.fsize[0] && I.parameters.prepare.index == g.smap[0]; }
       else {
         int c = g.callee[i];
-        ok = I.parameters.prepare.count == g.fsize[c] && I.parameters.prepare.index == g.smap[c] && reg_ok(I.parameters.prepare.target, fs);
+        ok = c >= 1 && I.parameters.prepare.count == g.fsize[c] && I.parameters.prepare.index == g.smap[c] && reg_ok(I.parameters.prepare.target, fs);
         // followed by the first ARG (k = 0) or, without arguments, by EXEC, of the same call
         if (ok && i + 1 < n) {
           const Instruction &N = V_AT(vm.code.code, i + 1);
@@ -123,7 +123,7 @@ static bool wf_instr(VM &vm, const Ghost &g, int n, int i) {
     }
     case OpCode::ARG: {
       int c = g.callee[i], k = g.argk[i];
-      ok = i >= 2 && k < g.nargs[c] && I.parameters.arg.target == k && reg_ok(I.parameters.arg.target, g.fsize[c]) && reg_ok(I.parameters.arg.source, fs);
+      ok = c >= 1 && i >= 2 && k < g.nargs[c] && I.parameters.arg.target == k && reg_ok(I.parameters.arg.target, g.fsize[c]) && reg_ok(I.parameters.arg.source, fs);
       if (ok) {  // predecessor is PREPARE (k == 0) or ARG k-1 of the same call, same region
         const Instruction &Pv = V_AT(vm.code.code, i - 1);
         ok = g.reg[i - 1] == r && g.callee[i - 1] == c && ((k == 0 && Pv.op == OpCode::PREPARE_EXEC) || (k > 0 && Pv.op == OpCode::ARG && g.argk[i - 1] == k - 1));
@@ -136,7 +136,7 @@ static bool wf_instr(VM &vm, const Ghost &g, int n, int i) {
     }
     case OpCode::EXEC: {
       int c = g.callee[i];
-      ok = i >= 2 && I.parameters.exec.entry == g.entry[c] && g.entry[c] < n;
+      ok = c >= 1 && i >= 2 && I.parameters.exec.entry == g.entry[c] && g.entry[c] < n;
       if (ok) ok = g.reg[g.entry[c]] == c && !in_seq(V_AT(vm.code.code, g.entry[c]).op);
       if (ok) {
         const Instruction &Pv = V_AT(vm.code.code, i - 1);
